@@ -99,7 +99,8 @@ fn err_matches(real: &StunParseError, r: &RefErr) -> bool {
         (StunParseError::AttributeAfterIntegrity(t), RefErr::AfterIntegrity(u)) => t.value() == *u,
         (StunParseError::AttributeAfterFingerprint(t), RefErr::AfterFingerprint(u)) => t.value() == *u,
         (StunParseError::FingerprintMismatch, RefErr::FingerprintMismatch) => true,
-        (StunParseError::Truncated { .. }, RefErr::FingerprintMalformed) | (StunParseError::TooLarge { .. }, RefErr::FingerprintMalformed) => true,
+        // a FINGERPRINT whose length is not 4: the statement does not say how it is reported (length error or mismatch)
+        (StunParseError::Truncated { .. }, RefErr::FingerprintMalformed) | (StunParseError::TooLarge { .. }, RefErr::FingerprintMalformed) | (StunParseError::FingerprintMismatch, RefErr::FingerprintMalformed) => true,
         _ => false,
     }
 }
@@ -159,7 +160,12 @@ pub fn check_buffer(rep: &mut Report, mode: &str, b: &[u8], key: &[u8], creds: &
             return;
         }
         (Err(e), Ok(_)) => { if fl.c02 { rep.violate("C02:refuses-wellformed", format!("parser refused a well-formed message with {:?}: {}", e, hex_short(b)), wit); } return; }
-        (Err(e), Err(r)) => { if fl.c02 && !err_matches(e, r) { rep.violate("C02:wrong-cause", format!("rejection names {:?}, reference cause {:?}: {}", e, r, hex_short(b)), wit); } return; }
+        (Err(e), Err(_r)) => {
+            // any cause that truthfully applies is accepted (the statement fixes neither precedence nor the order of independent checks)
+            let all = refmsg::causes(b);
+            if fl.c02 && !all.iter().any(|r| err_matches(e, r)) { rep.violate("C02:wrong-cause", format!("rejection names {:?}, but the causes that apply are {:?}: {}", e, all, hex_short(b)), wit); }
+            return;
+        }
         (Ok(()), Ok(_)) => {}
     }
     let r = reference.unwrap();
